@@ -32,6 +32,7 @@ class FnContract:
     returns: T.Ty | None = None
     requires: list = field(default_factory=list)
     ensures: dict = field(default_factory=dict)
+    bounded_ensures: dict = field(default_factory=dict)  # clauses checked ONLY by the run-time interpreter (bounded; never counted as proved)
     raises: dict = field(default_factory=dict)  # exception name -> iff-condition over the pre-state
     loops: dict = field(default_factory=dict)  # header text -> Loop
     locals: dict = field(default_factory=dict)
